@@ -29,6 +29,14 @@ func init() {
 	register("C16", "K-PRE", ruleKPre)
 	register("C16", "S-GLOBAL", ruleSGlobal)
 
+	register("C10", "G-TOKENS", ruleGTokens)
+	register("C10", "G-LEVELS", ruleGLevels)
+	register("C10", "G-ABBREV", ruleGAbbrev)
+
+	register("C17", "G-PAIR", ruleGPair)
+	register("C17", "G-EXPECT", ruleGExpect)
+	register("C17", "T-RECOVER", ruleTRecover)
+
 	register("C02", "S-RESET", ruleSReset)
 	register("C02", "S-PROP", ruleSProp)
 }
